@@ -3,7 +3,7 @@ CONSTANT Types4 = {"qst", "povmt", "qpt", "qmpt"}
 CONSTANT StateSets = {"S4", "S6", "S3"}
 CONSTANT PovmSets = {"P3", "Pmix", "P2"}
 CONSTANT SchedVariants = {"all", "permrep"}
-CONSTANT Ms = {2}
+CONSTANT Ms = {2, 3}
 CONSTANT NData = 3
 CONSTANT SolveMax = 8
 CONSTANT Emit = TRUE
